@@ -82,7 +82,7 @@ pub const STATEMENT_KINDS: [&str; 12] = [
     "Include", "Assert", "Class", "Def", "Defm", "Defset", "Defvar", "Dump", "Foreach", "If", "Let", "MultiClass",
 ];
 
-pub const ID_POOL: [&str; 25] = ["A", "B", "C", "Base", "Inst", "x", "y", "z", "val", "f1", "f2", "Rc", "i", "NAME", "_x", "x_1", "4x", "classic", "inty", "Def", "defx", "in_", "else2", "endif_", "define9"];
+pub const ID_POOL: [&str; 28] = ["A", "B", "C", "Base", "Inst", "x", "y", "z", "val", "f1", "f2", "Rc", "i", "NAME", "_x", "x_1", "4x", "16_bit", "0_", "1_a", "classic", "inty", "Def", "defx", "in_", "else2", "endif_", "define9"];
 pub const VAR_POOL: [&str; 3] = ["$a", "$b", "$src"];
 pub const STR_POOL: [&str; 10] = ["\"\"", "\"s\"", "\"a b\"", "\"e\\\"q\"", "\"t\\n\"", "\"héé\"", "\"C:\\\\\"", "\"\\\\\\\\\"", "\"q\\\\\\\"x\"", "\"// no /* comment [{ }]\""];
 pub const INT_POOL: [&str; 15] = ["0", "1", "7", "42", "-3", "+5", "0x1F", "0b101", "9223372036854775807", "-9223372036854775808", "007", "0xabcDEF", "18446744073709551615", "9223372036854775808", "0xFFFFFFFFFFFFFFFF"];
